@@ -796,8 +796,11 @@ fn intersect_check(rc: &ReadCase, image: &[u8], ops: &[ROp], st: &mut RunStats) 
         if std::fs::write(&q, format!("{}\t{}\t{}\n", ch.name, s, e)).is_err() {
             return Verdict::Skip("HARNESS: scratch write".into());
         }
-        let out = match std::process::Command::new(&bin).arg("intersect").arg(&q).arg(&big).output() {
+        let mut cmd = std::process::Command::new(&bin);
+        cmd.arg("intersect").arg(&q).arg(&big);
+        let out = match pipesim::output_with_deadline(cmd, 60) {
             Ok(o) => o,
+            Err(e) if e.kind() == std::io::ErrorKind::TimedOut => return viol("intersect-tool", format!("bigtools intersect: {}", e)),
             Err(e) => return Verdict::Skip(format!("HARNESS: cannot run {}: {}", bin, e)),
         };
         if !out.status.success() {
